@@ -28,6 +28,13 @@ theorem alGet_alSet {κ : Type} [DecidableEq κ] (m : List (κ × Nat)) (k k' : 
         simp [h1, this]
       · simp [h1]
 
+theorem alSet_mono {κ : Type} [DecidableEq κ] (m : List (κ × Nat)) (k k' : κ) (v : Nat)
+    (h : alGet m k' ≠ none) : alGet (alSet m k v) k' ≠ none := by
+  rw [alGet_alSet]
+  split
+  · simp
+  · exact h
+
 /-! ### nodes -/
 
 def subs : Node → List Node
@@ -58,18 +65,58 @@ theorem subs_size : ∀ (n s : Node), s ∈ subs n → s.tree.size ≤ n.tree.si
     · have := ihr s h
       simp only [Node.tree, Tree.size, Tree.pairs, Tree.atoms] at this ⊢; omega
 
+/-- occurrences of the marker atom -/
+def cnt (m : Bytes) : Tree → Nat
+  | .atom b => if b = m then 1 else 0
+  | .pair l r => cnt m l + cnt m r
+
+theorem subs_cnt (m : Bytes) : ∀ (n s : Node), s ∈ subs n → cnt m s.tree ≤ cnt m n.tree := by
+  intro n
+  induction n with
+  | atom b => intro s h; simp [subs] at h; subst h; exact Nat.le_refl _
+  | pair id l r ihl ihr =>
+    intro s h
+    simp only [subs, List.mem_cons, List.mem_append] at h
+    rcases h with rfl | h | h
+    · exact Nat.le_refl _
+    · have := ihl s h
+      simp only [Node.tree, cnt]; omega
+    · have := ihr s h
+      simp only [Node.tree, cnt]; omega
+
+def IsPair : Node → Prop
+  | .pair _ _ _ => True
+  | .atom _ => False
+
 /-! ### the invariant -/
 
-structure UInv (K : Key → Tree) (C : Nat → Tree) (tc : TC) : Prop where
-  sentinel : tc.sentinel = none
+/-- the key of the sentinel `NodePtr` -/
+def IsSK (sent : Option Bytes) (k : Key) : Prop := ∃ m, sent = some m ∧ k = Key.atom m
+
+theorem not_isSK_pair {sent : Option Bytes} {id : Option Nat} {l r : Node} : ¬ IsSK sent (Node.pair id l r).key := by
+  rintro ⟨m, _, h⟩
+  cases id <;> simp [Node.key] at h
+
+theorem not_isSK_atom {sent : Option Bytes} {b : Bytes} (h : sent ≠ some b) : ¬ IsSK sent (Node.atom b).key := by
+  rintro ⟨m, h1, h2⟩
+  simp only [Node.key, Key.atom.injEq] at h2
+  subst h2; exact h h1
+
+/-- `C` gives every entry a content (with the pending sentinel, if any, as the marker atom); `K` gives
+every `NodePtr` but the sentinel's its content -/
+structure UInv (sent : Option Bytes) (K : Key → Tree) (C : Nat → Tree) (tc : TC) : Prop where
+  sentinel : tc.sentinel = sent
   parents : ∀ (X : Nat) (e : NodeEntry), tc.entries[X]? = some e → ∀ P d, (P, d) ∈ e.parents →
     P < tc.entries.size ∧ child (C P) d = some (C X)
-  nodeMap : ∀ k i, alGet tc.nodeMap k = some i → i < tc.entries.size ∧ C i = K k
-  atoms : ∀ b i, alGet tc.atomLookup b = some i → i < tc.entries.size ∧ C i = Tree.atom b
+  nodeMap : ∀ k i, alGet tc.nodeMap k = some i → i < tc.entries.size ∧ (¬ IsSK sent k → C i = K k)
+  atoms : ∀ b i, alGet tc.atomLookup b = some i → i < tc.entries.size ∧ C i = Tree.atom b ∧ sent ≠ some b
   pairs : ∀ l r i, alGet tc.pairLookup (l, r) = some i →
     i < tc.entries.size ∧ l < tc.entries.size ∧ r < tc.entries.size ∧ C i = Tree.pair (C l) (C r)
+  /-- an entry whose content contains the pending sentinel has no serialized length -/
+  slZero : ∀ m, sent = some m → ∀ (i : Nat) (e : NodeEntry), tc.entries[i]? = some e → cnt m (C i) ≥ 1 →
+    e.serializedLength = 0
 
-theorem UInv.parentsSound {K C tc} (h : UInv K C tc) : ParentsSound C tc :=
+theorem UInv.parentsSound {sent K C tc} (h : UInv sent K C tc) : ParentsSound C tc :=
   fun X e he P d hm => (h.parents X e he P d hm).2
 
 /-- extend `C` at the next free index -/
@@ -82,13 +129,15 @@ theorem ext_self {C : Nat → Tree} {n : Nat} {t : Tree} : ext C n t n = t := by
 
 /-- pushing a fresh entry (no parents) and extending `C` keeps the invariant, for any changes of the maps
 that are justified for the new content -/
-theorem UInv.pushEntry {K C} {tc : TC} (h : UInv K C tc) (t : Tree) (sl : Nat) (nm : List (Key × Nat))
+theorem UInv.pushEntry {sent K C} {tc : TC} (h : UInv sent K C tc) (t : Tree) (sl : Nat) (nm : List (Key × Nat))
     (al : List (Bytes × Nat)) (pl : List ((Nat × Nat) × Nat))
-    (hnm : ∀ k i, alGet nm k = some i → alGet tc.nodeMap k = some i ∨ (i = tc.entries.size ∧ t = K k))
-    (hal : ∀ b i, alGet al b = some i → alGet tc.atomLookup b = some i ∨ (i = tc.entries.size ∧ t = Tree.atom b))
+    (hnm : ∀ k i, alGet nm k = some i → alGet tc.nodeMap k = some i ∨ (i = tc.entries.size ∧ (¬ IsSK sent k → t = K k)))
+    (hal : ∀ b i, alGet al b = some i → alGet tc.atomLookup b = some i ∨
+      (i = tc.entries.size ∧ t = Tree.atom b ∧ sent ≠ some b))
     (hpl : ∀ l r i, alGet pl (l, r) = some i → alGet tc.pairLookup (l, r) = some i ∨
-      (i = tc.entries.size ∧ l < tc.entries.size ∧ r < tc.entries.size ∧ t = Tree.pair (C l) (C r))) :
-    UInv K (ext C tc.entries.size t)
+      (i = tc.entries.size ∧ l < tc.entries.size ∧ r < tc.entries.size ∧ t = Tree.pair (C l) (C r)))
+    (hsl : ∀ m, sent = some m → cnt m t ≥ 1 → sl = 0) :
+    UInv sent K (ext C tc.entries.size t)
       { tc with nodeMap := nm, atomLookup := al, pairLookup := pl,
                 entries := tc.entries.push { parents := [], serializedLength := sl, onStack := 0 } } where
   sentinel := h.sentinel
@@ -109,15 +158,15 @@ theorem UInv.pushEntry {K C} {tc : TC} (h : UInv K C tc) (t : Tree) (sl : Nat) (
     simp only [Array.size_push]
     rcases hnm k i hk with h1 | ⟨rfl, ht⟩
     · obtain ⟨p1, p2⟩ := h.nodeMap k i h1
-      exact ⟨by omega, by rw [ext_lt p1]; exact p2⟩
-    · exact ⟨by omega, by rw [ext_self]; exact ht⟩
+      exact ⟨by omega, fun hs => by rw [ext_lt p1]; exact p2 hs⟩
+    · exact ⟨by omega, fun hs => by rw [ext_self]; exact ht hs⟩
   atoms := by
     intro b i hk
     simp only [Array.size_push]
-    rcases hal b i hk with h1 | ⟨rfl, ht⟩
-    · obtain ⟨p1, p2⟩ := h.atoms b i h1
-      exact ⟨by omega, by rw [ext_lt p1]; exact p2⟩
-    · exact ⟨by omega, by rw [ext_self]; exact ht⟩
+    rcases hal b i hk with h1 | ⟨rfl, ht, hs⟩
+    · obtain ⟨p1, p2, p3⟩ := h.atoms b i h1
+      exact ⟨by omega, by rw [ext_lt p1]; exact p2, p3⟩
+    · exact ⟨by omega, by rw [ext_self]; exact ht, hs⟩
   pairs := by
     intro l r i hk
     simp only [Array.size_push]
@@ -125,6 +174,20 @@ theorem UInv.pushEntry {K C} {tc : TC} (h : UInv K C tc) (t : Tree) (sl : Nat) (
     · obtain ⟨p1, p2, p3, p4⟩ := h.pairs l r i h1
       exact ⟨by omega, by omega, by omega, by rw [ext_lt p1, ext_lt p2, ext_lt p3]; exact p4⟩
     · exact ⟨by omega, by omega, by omega, by rw [ext_self, ext_lt hl, ext_lt hr]; exact ht⟩
+  slZero := by
+    intro m hm i e he hc
+    simp only [Array.getElem?_push] at he
+    split at he
+    · rename_i hi
+      simp only [Option.some.injEq] at he; subst he
+      rw [hi, ext_self] at hc
+      exact hsl m hm hc
+    · have hX : i < tc.entries.size := by
+        by_cases hc' : i < tc.entries.size
+        · exact hc'
+        · rw [Array.getElem?_eq_none (by omega)] at he; cases he
+      rw [ext_lt hX] at hc
+      exact h.slZero m hm i e he hc
 
 theorem mem_addParent {e : NodeEntry} {parent : Nat} {pos : Bool} {x : Nat × Bool}
     (h : x ∈ (e.addParent parent pos).parents) : x ∈ e.parents ∨ x = (parent, pos) := by
@@ -134,10 +197,10 @@ theorem mem_addParent {e : NodeEntry} {parent : Nat} {pos : Bool} {x : Nat × Bo
   · simp only [List.mem_append, List.mem_singleton] at h; exact h
 
 /-- adding a true parent link to an entry keeps the invariant -/
-theorem UInv.addParent {K C} {tc : TC} (h : UInv K C tc) (X idx : Nat) (pos : Bool) (es : Array NodeEntry)
+theorem UInv.addParent {sent K C} {tc : TC} (h : UInv sent K C tc) (X idx : Nat) (pos : Bool) (es : Array NodeEntry)
     (hidx : idx < tc.entries.size) (hchild : child (C idx) pos = some (C X))
     (hm : modEntry tc.entries X (fun e => .ok (e.addParent idx pos)) = .ok es) :
-    UInv K C { tc with entries := es } ∧ es.size = tc.entries.size := by
+    UInv sent K C { tc with entries := es } ∧ es.size = tc.entries.size := by
   unfold modEntry at hm
   cases he : tc.entries[X]? with
   | none => simp [he] at hm
@@ -145,7 +208,7 @@ theorem UInv.addParent {K C} {tc : TC} (h : UInv K C tc) (X idx : Nat) (pos : Bo
     simp only [he, Except.ok.injEq] at hm
     subst hm
     have hsz : (tc.entries.set! X (e.addParent idx pos)).size = tc.entries.size := by simp [Array.set!]
-    refine ⟨⟨h.sentinel, ?_, ?_, ?_, ?_⟩, hsz⟩
+    refine ⟨⟨h.sentinel, ?_, ?_, ?_, ?_, ?_⟩, hsz⟩
     · intro Y e' he' P d hmem
       simp only [hsz]
       rw [Array.set!, Array.getElem?_setIfInBounds] at he'
@@ -165,24 +228,47 @@ theorem UInv.addParent {K C} {tc : TC} (h : UInv K C tc) (X idx : Nat) (pos : Bo
     · intro k i hk; simp only [hsz]; exact h.nodeMap k i hk
     · intro b i hk; simp only [hsz]; exact h.atoms b i hk
     · intro l r i hk; simp only [hsz]; exact h.pairs l r i hk
+    · intro m hm i e' he' hc
+      rw [Array.set!, Array.getElem?_setIfInBounds] at he'
+      by_cases hxy : X = i
+      · subst hxy
+        rw [if_pos rfl] at he'
+        split at he'
+        · simp only [Option.some.injEq] at he'; subst he'
+          have := h.slZero m hm X e he hc
+          unfold NodeEntry.addParent
+          split <;> exact this
+        · cases he'
+      · rw [if_neg hxy] at he'
+        exact h.slZero m hm i e' he' hc
 
 /-! ### the traversal, node by node -/
 
 /-- what processing `Traverse(n)` achieves (on any successful run) -/
-structure Step (K : Key → Tree) (C : Nat → Tree) (tc : TC) (n : Node) (C' : Nat → Tree) (tc' : TC) (i : Nat) : Prop where
-  inv : UInv K C' tc'
+structure Step (sent : Option Bytes) (K : Key → Tree) (C : Nat → Tree) (tc : TC) (n : Node) (C' : Nat → Tree) (tc' : TC)
+    (i : Nat) : Prop where
+  inv : UInv sent K C' tc'
   same : ∀ j, j < tc.entries.size → C' j = C j
   grow : tc.entries.size ≤ tc'.entries.size
   idx : i < tc'.entries.size
   content : C' i = n.tree
   stack : tc'.stack = tc.stack
   sn : tc'.serializedNodes = tc.serializedNodes
-  keep : ∀ k j, alGet tc.nodeMap k = some j → alGet tc'.nodeMap k = some j
+  keep : ∀ k j, ¬ IsSK sent k → alGet tc.nodeMap k = some j → alGet tc'.nodeMap k = some j
   fresh : ∀ k, alGet tc'.nodeMap k ≠ none → alGet tc.nodeMap k ≠ none ∨ ∃ s, s ∈ subs n ∧ s.key = k
+  mono : ∀ k, alGet tc.nodeMap k ≠ none → alGet tc'.nodeMap k ≠ none
+  /-- the sentinel's key: unchanged, or it now names a (new) entry whose content is the marker -/
+  sentNew : ∀ m j, sent = some m → alGet tc'.nodeMap (Key.atom m) = some j →
+    alGet tc.nodeMap (Key.atom m) = some j ∨ (tc.entries.size ≤ j ∧ C' j = Tree.atom m)
+  /-- if the sentinel occurs exactly once in `n` and no pair of `n` above it is registered already, the
+  sentinel is traversed: its key names a new entry whose content is the marker -/
+  sentHit : ∀ m, sent = some m → cnt m n.tree = 1 →
+    (∀ s, s ∈ subs n → IsPair s → cnt m s.tree ≥ 1 → alGet tc.nodeMap s.key = none) →
+    ∃ j, alGet tc'.nodeMap (Key.atom m) = some j ∧ tc.entries.size ≤ j ∧ C' j = Tree.atom m
 
-theorem pairEntry_spec {K C} {tc : TC} (h : UInv K C tc) (il ir sl : Nat) (hl : il < tc.entries.size)
-    (hr : ir < tc.entries.size) :
-    ∃ C', UInv K C' (pairEntry tc il ir sl).2 ∧ (∀ j, j < tc.entries.size → C' j = C j) ∧
+theorem pairEntry_spec {sent K C} {tc : TC} (h : UInv sent K C tc) (il ir sl : Nat) (hl : il < tc.entries.size)
+    (hr : ir < tc.entries.size) (hsl : ∀ m, sent = some m → cnt m (Tree.pair (C il) (C ir)) ≥ 1 → sl = 0) :
+    ∃ C', UInv sent K C' (pairEntry tc il ir sl).2 ∧ (∀ j, j < tc.entries.size → C' j = C j) ∧
       tc.entries.size ≤ (pairEntry tc il ir sl).2.entries.size ∧
       (pairEntry tc il ir sl).1 < (pairEntry tc il ir sl).2.entries.size ∧
       C' (pairEntry tc il ir sl).1 = Tree.pair (C il) (C ir) ∧
@@ -209,6 +295,7 @@ theorem pairEntry_spec {K C} {tc : TC} (h : UInv K C tc) (il ir sl : Nat) (hl : 
         subst hki
         exact .inr ⟨rfl, hl, hr, rfl⟩
       · exact .inl hki
+    · exact hsl
 
 theorem modEntry_size {es es' : Array NodeEntry} {X : Nat} {f : NodeEntry → Except Err NodeEntry}
     (h : modEntry es X f = .ok es') : es'.size = es.size := by
@@ -223,10 +310,10 @@ theorem modEntry_size {es es' : Array NodeEntry} {X : Nat} {f : NodeEntry → Ex
       simp only [hf, Except.ok.injEq] at h
       subst h; simp [Array.set!]
 
-theorem updateLoop_traverse (K : Key → Tree) : ∀ (n : Node), KOk K n →
+theorem updateLoop_traverse (sent : Option Bytes) (K : Key → Tree) : ∀ (n : Node), KOk K n →
     ∀ (fuel : Nat) (ops : List CacheOp) (stack : List Nat) (tc : TC) (res : List Nat × TC) (C : Nat → Tree),
-      UInv K C tc → updateLoop fuel (.traverse n :: ops) stack tc = .ok res →
-      ∃ fuel' i tc' C', updateLoop fuel' ops (i :: stack) tc' = .ok res ∧ Step K C tc n C' tc' i := by
+      UInv sent K C tc → updateLoop fuel (.traverse n :: ops) stack tc = .ok res →
+      ∃ fuel' i tc' C', updateLoop fuel' ops (i :: stack) tc' = .ok res ∧ Step sent K C tc n C' tc' i := by
   intro n
   induction n with
   | atom b =>
@@ -234,76 +321,148 @@ theorem updateLoop_traverse (K : Key → Tree) : ∀ (n : Node), KOk K n →
     cases fuel with
     | zero => simp [updateLoop] at h
     | succ fuel =>
-      have hsen : tc.isSentinel (.atom b) = false := by simp [TC.isSentinel, hinv.sentinel]
       have hK : K (Node.atom b).key = Tree.atom b := hk _ (self_mem_subs _)
       unfold updateLoop at h
-      simp only [hsen, Bool.false_eq_true, if_false] at h
-      cases hg : alGet tc.nodeMap (Node.atom b).key with
-      | some idx =>
-        simp only [hg] at h
-        obtain ⟨p1, p2⟩ := hinv.nodeMap _ _ hg
-        exact ⟨fuel, idx, tc, C, h, ⟨hinv, fun _ _ => rfl, Nat.le_refl _, p1, by rw [p2, hK]; rfl, rfl, rfl,
-          fun _ _ hh => hh, fun k hh => .inl hh⟩⟩
-      | none =>
-        simp only [hg] at h
-        cases ha : alGet tc.atomLookup b with
-        | some idx =>
-          simp only [ha] at h
-          obtain ⟨p1, p2⟩ := hinv.atoms _ _ ha
-          refine ⟨fuel, idx, _, C, h, ⟨⟨hinv.sentinel, hinv.parents, ?_, hinv.atoms, hinv.pairs⟩, fun _ _ => rfl,
-            Nat.le_refl _, p1, p2, rfl, rfl, ?_, ?_⟩⟩
+      by_cases hsen : tc.isSentinel (.atom b) = true
+      · -- the sentinel: a new entry every time, `node_map[sentinel]` now names it
+        have hsb : sent = some b := by
+          have : tc.sentinel = some b := by simpa [TC.isSentinel] using hsen
+          rw [← hinv.sentinel]; exact this
+        simp only [hsen, if_true] at h
+        refine ⟨fuel, tc.entries.size, _, ext C tc.entries.size (Tree.atom b), h, ⟨?_, fun j hj => ext_lt hj,
+          by simp, by simp, ext_self, rfl, rfl, ?_, ?_, fun k hh => alSet_mono _ _ _ _ hh, ?_, ?_⟩⟩
+        · apply hinv.pushEntry (Tree.atom b)
           · intro k i hki
             simp only [alGet_alSet] at hki
             split at hki
             · rename_i hkk
               simp only [Option.some.injEq] at hki
               subst hki; subst hkk
-              exact ⟨p1, by rw [p2, hK]⟩
-            · exact hinv.nodeMap k i hki
-          · intro k j hkj
-            simp only [alGet_alSet]
-            split
-            · rename_i hkk; subst hkk; rw [hg] at hkj; cases hkj
-            · exact hkj
-          · intro k hne
-            simp only [alGet_alSet] at hne
-            split at hne
-            · rename_i hkk
-              exact .inr ⟨_, self_mem_subs _, hkk⟩
-            · exact .inl hne
+              exact .inr ⟨rfl, fun hns => absurd ⟨b, hsb, rfl⟩ hns⟩
+            · exact .inl hki
+          · intro b' i hki; exact .inl hki
+          · intro l r i hki; exact .inl hki
+          · intro _ _ _; rfl
+        · intro k j hns hkj
+          simp only [alGet_alSet]
+          split
+          · rename_i hkk; subst hkk; exact absurd ⟨b, hsb, rfl⟩ hns
+          · exact hkj
+        · intro k hne
+          simp only [alGet_alSet] at hne
+          split at hne
+          · rename_i hkk
+            exact .inr ⟨_, self_mem_subs _, hkk⟩
+          · exact .inl hne
+        · intro m j hm hj
+          rw [hsb] at hm
+          simp only [Option.some.injEq] at hm
+          subst hm
+          simp only [Node.key, alGet_alSet, if_true, Option.some.injEq] at hj
+          subst hj
+          exact .inr ⟨Nat.le_refl _, ext_self⟩
+        · intro m hm _ _
+          rw [hsb] at hm
+          simp only [Option.some.injEq] at hm
+          subst hm
+          exact ⟨tc.entries.size, by simp [Node.key, alGet_alSet], Nat.le_refl _, ext_self⟩
+      · have hsen' : tc.isSentinel (.atom b) = false := by simpa using hsen
+        have hnb : sent ≠ some b := by
+          intro hc
+          rw [← hinv.sentinel] at hc
+          simp [TC.isSentinel, hc] at hsen'
+        have hns : ¬ IsSK sent (Node.atom b).key := not_isSK_atom hnb
+        have hnoS : ∀ m, sent = some m → cnt m (Node.atom b).tree ≠ 1 := by
+          intro m hm hc
+          simp only [Node.tree, cnt] at hc
+          split at hc
+          · rename_i hbm; subst hbm; exact hnb hm
+          · cases hc
+        simp only [hsen', Bool.false_eq_true, if_false] at h
+        cases hg : alGet tc.nodeMap (Node.atom b).key with
+        | some idx =>
+          simp only [hg] at h
+          obtain ⟨p1, p2⟩ := hinv.nodeMap _ _ hg
+          exact ⟨fuel, idx, tc, C, h, ⟨hinv, fun _ _ => rfl, Nat.le_refl _, p1, by rw [p2 hns, hK]; rfl, rfl, rfl,
+            fun _ _ _ hh => hh, fun k hh => .inl hh, fun _ hh => hh, fun m j _ hj => .inl hj, fun m hm hc _ => absurd hc (hnoS m hm)⟩⟩
         | none =>
-          simp only [ha] at h
-          refine ⟨fuel, tc.entries.size, _, ext C tc.entries.size (Tree.atom b), h, ⟨?_, fun j hj => ext_lt hj,
-            by simp, by simp, ext_self, rfl, rfl, ?_, ?_⟩⟩
-          · apply hinv.pushEntry (Tree.atom b)
+          simp only [hg] at h
+          cases ha : alGet tc.atomLookup b with
+          | some idx =>
+            simp only [ha] at h
+            obtain ⟨p1, p2, _⟩ := hinv.atoms _ _ ha
+            refine ⟨fuel, idx, _, C, h, ⟨⟨hinv.sentinel, hinv.parents, ?_, hinv.atoms, hinv.pairs, hinv.slZero⟩, fun _ _ => rfl,
+              Nat.le_refl _, p1, p2, rfl, rfl, ?_, ?_, fun k hh => alSet_mono _ _ _ _ hh, ?_, fun m hm hc _ => absurd hc (hnoS m hm)⟩⟩
             · intro k i hki
               simp only [alGet_alSet] at hki
               split at hki
               · rename_i hkk
                 simp only [Option.some.injEq] at hki
                 subst hki; subst hkk
-                exact .inr ⟨rfl, hK.symm⟩
-              · exact .inl hki
-            · intro b' i hki
-              simp only [alGet_alSet] at hki
-              split at hki
+                exact ⟨p1, fun _ => by rw [p2, hK]⟩
+              · exact hinv.nodeMap k i hki
+            · intro k j _ hkj
+              simp only [alGet_alSet]
+              split
+              · rename_i hkk; subst hkk; rw [hg] at hkj; cases hkj
+              · exact hkj
+            · intro k hne
+              simp only [alGet_alSet] at hne
+              split at hne
               · rename_i hkk
-                simp only [Option.some.injEq] at hki
-                subst hki; subst hkk
-                exact .inr ⟨rfl, rfl⟩
-              · exact .inl hki
-            · intro l r i hki; exact .inl hki
-          · intro k j hkj
-            simp only [alGet_alSet]
-            split
-            · rename_i hkk; subst hkk; rw [hg] at hkj; cases hkj
-            · exact hkj
-          · intro k hne
-            simp only [alGet_alSet] at hne
-            split at hne
-            · rename_i hkk
-              exact .inr ⟨_, self_mem_subs _, hkk⟩
-            · exact .inl hne
+                exact .inr ⟨_, self_mem_subs _, hkk⟩
+              · exact .inl hne
+            · intro m j hm hj
+              simp only [alGet_alSet] at hj
+              split at hj
+              · rename_i hkk
+                exact absurd ⟨m, hm, hkk⟩ hns
+              · exact .inl hj
+          | none =>
+            simp only [ha] at h
+            refine ⟨fuel, tc.entries.size, _, ext C tc.entries.size (Tree.atom b), h, ⟨?_, fun j hj => ext_lt hj,
+              by simp, by simp, ext_self, rfl, rfl, ?_, ?_, fun k hh => alSet_mono _ _ _ _ hh, ?_, fun m hm hc _ => absurd hc (hnoS m hm)⟩⟩
+            · apply hinv.pushEntry (Tree.atom b)
+              · intro k i hki
+                simp only [alGet_alSet] at hki
+                split at hki
+                · rename_i hkk
+                  simp only [Option.some.injEq] at hki
+                  subst hki; subst hkk
+                  exact .inr ⟨rfl, fun _ => hK.symm⟩
+                · exact .inl hki
+              · intro b' i hki
+                simp only [alGet_alSet] at hki
+                split at hki
+                · rename_i hkk
+                  simp only [Option.some.injEq] at hki
+                  subst hki; subst hkk
+                  exact .inr ⟨rfl, rfl, hnb⟩
+                · exact .inl hki
+              · intro l r i hki; exact .inl hki
+              · intro m' hm' hc'
+                exfalso
+                simp only [cnt] at hc'
+                split at hc'
+                · rename_i hbm; subst hbm; exact hnb hm'
+                · omega
+            · intro k j _ hkj
+              simp only [alGet_alSet]
+              split
+              · rename_i hkk; subst hkk; rw [hg] at hkj; cases hkj
+              · exact hkj
+            · intro k hne
+              simp only [alGet_alSet] at hne
+              split at hne
+              · rename_i hkk
+                exact .inr ⟨_, self_mem_subs _, hkk⟩
+              · exact .inl hne
+            · intro m j hm hj
+              simp only [alGet_alSet] at hj
+              split at hj
+              · rename_i hkk
+                exact absurd ⟨m, hm, hkk⟩ hns
+              · exact .inl hj
   | pair id l r ihl ihr =>
     intro hk fuel ops stack tc res C hinv h
     cases fuel with
@@ -311,14 +470,18 @@ theorem updateLoop_traverse (K : Key → Tree) : ∀ (n : Node), KOk K n →
     | succ fuel =>
       have hsen : tc.isSentinel (.pair id l r) = false := rfl
       have hK : K (Node.pair id l r).key = Tree.pair l.tree r.tree := hk _ (self_mem_subs _)
+      have hns : ¬ IsSK sent (Node.pair id l r).key := not_isSK_pair
       unfold updateLoop at h
       simp only [hsen, Bool.false_eq_true, if_false] at h
       cases hg : alGet tc.nodeMap (Node.pair id l r).key with
       | some idx =>
         simp only [hg] at h
         obtain ⟨p1, p2⟩ := hinv.nodeMap _ _ hg
-        exact ⟨fuel, idx, tc, C, h, ⟨hinv, fun _ _ => rfl, Nat.le_refl _, p1, by rw [p2, hK]; rfl, rfl, rfl,
-          fun _ _ hh => hh, fun k hh => .inl hh⟩⟩
+        refine ⟨fuel, idx, tc, C, h, ⟨hinv, fun _ _ => rfl, Nat.le_refl _, p1, by rw [p2 hns, hK]; rfl, rfl, rfl,
+          fun _ _ _ hh => hh, fun k hh => .inl hh, fun _ hh => hh, fun m j _ hj => .inl hj, ?_⟩⟩
+        intro m hm hc hun
+        have := hun _ (self_mem_subs _) trivial (by rw [hc]; exact Nat.le_refl _)
+        rw [hg] at this; cases this
       | none =>
         simp only [hg] at h
         obtain ⟨f1, il, tc1, C1, h1, s1⟩ := ihl hk.left fuel _ stack tc res C hinv h
@@ -364,7 +527,17 @@ theorem updateLoop_traverse (K : Key → Tree) : ∀ (n : Node), KOk K n →
               simp only [hel, her] at h2
               generalize hsl : (if left.serializedLength > 0 ∧ right.serializedLength > 0 then
                 Classic.satAdd 1 (Classic.satAdd left.serializedLength right.serializedLength) else 0) = sl at h2
-              obtain ⟨C3, i3, same3, grow3, idx3, cont3, nm3, st3, sn3⟩ := pairEntry_spec s2.inv il ir sl hil2 s2.idx
+              have hslz : ∀ m, sent = some m → cnt m (Tree.pair (C2 il) (C2 ir)) ≥ 1 → sl = 0 := by
+                intro m hm hc
+                simp only [cnt] at hc
+                rw [← hsl]
+                by_cases hcl' : cnt m (C2 il) ≥ 1
+                · have := s2.inv.slZero m hm il left hel hcl'
+                  simp [this]
+                · have hcr' : cnt m (C2 ir) ≥ 1 := by omega
+                  have := s2.inv.slZero m hm ir right her hcr'
+                  simp [this]
+              obtain ⟨C3, i3, same3, grow3, idx3, cont3, nm3, st3, sn3⟩ := pairEntry_spec s2.inv il ir sl hil2 s2.idx hslz
               generalize pairEntry tc2 il ir sl = pe at h2 i3 same3 grow3 idx3 cont3 nm3 st3 sn3
               cases hm1 : modEntry pe.2.entries il (fun e => .ok (e.addParent pe.1 false)) with
               | error e => rw [hm1] at h2; cases h2
@@ -383,31 +556,33 @@ theorem updateLoop_traverse (K : Key → Tree) : ∀ (n : Node), KOk K n →
                     rw [cont3, same3 ir s2.idx]; rfl
                   obtain ⟨i5, sz5⟩ := i4.addParent ir pe.1 true es2 (by simp only [sz4]; exact idx3) hch2 hm2
                   simp only [] at i5 sz5
-                  refine ⟨f2, pe.1, _, C3, h2, ⟨⟨i5.sentinel, i5.parents, ?_, i5.atoms, i5.pairs⟩, ?_, ?_, ?_, ?_, ?_, ?_, ?_, ?_⟩⟩
+                  have hg1 := s1.grow
+                  have hg2 := s2.grow
+                  refine ⟨f2, pe.1, _, C3, h2, ⟨⟨i5.sentinel, i5.parents, ?_, i5.atoms, i5.pairs, i5.slZero⟩, ?_, ?_, ?_, ?_, ?_, ?_, ?_, ?_,
+                    fun k hh => alSet_mono _ _ _ _ (by rw [nm3]; exact s2.mono k (s1.mono k hh)), ?_, ?_⟩⟩
                   · intro k i hki
                     simp only [alGet_alSet] at hki
                     split at hki
                     · rename_i hkk
                       simp only [Option.some.injEq] at hki
                       subst hki; subst hkk
-                      refine ⟨by simp only [sz5, sz4]; exact idx3, ?_⟩
+                      refine ⟨by simp only [sz5, sz4]; exact idx3, fun _ => ?_⟩
                       rw [cont3, hcl, hcr, hK]
                     · exact i5.nodeMap k i hki
                   · intro j hj
-                    rw [same3 j (by have := s1.grow; have := s2.grow; omega), s2.same j (by have := s1.grow; omega), s1.same j hj]
-                  · simp only [sz5, sz4]
-                    have := s1.grow; have := s2.grow; omega
+                    rw [same3 j (by omega), s2.same j (by omega), s1.same j hj]
+                  · simp only [sz5, sz4]; omega
                   · simp only [sz5, sz4]; exact idx3
                   · rw [cont3, hcl, hcr]; rfl
                   · show pe.2.stack = tc.stack
                     rw [st3, s2.stack, s1.stack]
                   · show pe.2.serializedNodes = tc.serializedNodes
                     rw [sn3, s2.sn, s1.sn]
-                  · intro k j hkj
+                  · intro k j hnsk hkj
                     simp only [alGet_alSet, nm3]
                     split
                     · rename_i hkk; subst hkk; rw [hg] at hkj; cases hkj
-                    · exact s2.keep k j (s1.keep k j hkj)
+                    · exact s2.keep k j hnsk (s1.keep k j hnsk hkj)
                   · intro k hne
                     simp only [alGet_alSet, nm3] at hne
                     split at hne
@@ -418,5 +593,69 @@ theorem updateLoop_traverse (K : Key → Tree) : ∀ (n : Node), KOk K n →
                         · exact .inl hh2
                         · exact .inr ⟨s, by simp only [subs, List.mem_cons, List.mem_append]; exact .inr (.inl hs), he⟩
                       · exact .inr ⟨s, by simp only [subs, List.mem_cons, List.mem_append]; exact .inr (.inr hs), he⟩
+                  · -- sentNew
+                    intro m j hm hj
+                    simp only [alGet_alSet, nm3] at hj
+                    split at hj
+                    · rename_i hkk
+                      exact absurd ⟨m, hm, hkk⟩ hns
+                    · rcases s2.sentNew m j hm hj with hh | ⟨hge, hc⟩
+                      · rcases s1.sentNew m j hm hh with hh2 | ⟨hge, hc⟩
+                        · exact .inl hh2
+                        · have hj1 : j < tc1.entries.size := (s1.inv.nodeMap _ _ hh).1
+                          exact .inr ⟨hge, by rw [same3 j (by omega), s2.same j hj1]; exact hc⟩
+                      · have hj2 : j < tc2.entries.size := (s2.inv.nodeMap _ _ hj).1
+                        exact .inr ⟨by omega, by rw [same3 j hj2]; exact hc⟩
+                  · -- sentHit
+                    intro m hm hc hun
+                    have hcl1 : cnt m l.tree + cnt m r.tree = 1 := by simpa [Node.tree, cnt] using hc
+                    have hunl : ∀ s, s ∈ subs l → IsPair s → cnt m s.tree ≥ 1 → alGet tc.nodeMap s.key = none :=
+                      fun s hs => hun s (by simp only [subs, List.mem_cons, List.mem_append]; exact .inr (.inl hs))
+                    have finish : ∀ j, alGet tc2.nodeMap (Key.atom m) = some j → tc.entries.size ≤ j → C2 j = Tree.atom m →
+                        ∃ j, alGet (alSet pe.2.nodeMap (Node.pair id l r).key pe.1) (Key.atom m) = some j ∧
+                          tc.entries.size ≤ j ∧ C3 j = Tree.atom m := by
+                      intro j hj hge hcj
+                      refine ⟨j, ?_, hge, ?_⟩
+                      · simp only [alGet_alSet, nm3]
+                        split
+                        · rename_i hkk
+                          exact absurd ⟨m, hm, hkk⟩ hns
+                        · exact hj
+                      · rw [same3 j (s2.inv.nodeMap _ _ hj).1]; exact hcj
+                    by_cases hl1 : cnt m l.tree = 1
+                    · obtain ⟨j1, g1, ge1, c1⟩ := s1.sentHit m hm hl1 hunl
+                      have hj1 : j1 < tc1.entries.size := (s1.inv.nodeMap _ _ g1).1
+                      -- the traversal of `r` keeps it or renews it
+                      cases hg2 : alGet tc2.nodeMap (Key.atom m) with
+                      | none =>
+                        exact absurd hg2 (s2.mono _ (by rw [g1]; simp))
+                      | some j2 =>
+                        rcases s2.sentNew m j2 hm hg2 with hh | ⟨hge, hc2⟩
+                        · rw [g1] at hh
+                          simp only [Option.some.injEq] at hh
+                          subst hh
+                          exact finish j1 hg2 ge1 (by rw [s2.same j1 hj1]; exact c1)
+                        · exact finish j2 hg2 (by omega) hc2
+                    · have hr1 : cnt m r.tree = 1 := by omega
+                      have hl0 : cnt m l.tree = 0 := by omega
+                      have hunr : ∀ s, s ∈ subs r → IsPair s → cnt m s.tree ≥ 1 → alGet tc1.nodeMap s.key = none := by
+                        intro s hs hp hcs
+                        cases hv : alGet tc1.nodeMap s.key with
+                        | none => rfl
+                        | some j =>
+                          exfalso
+                          rcases s1.fresh s.key (by rw [hv]; simp) with hh | ⟨s', hs', he⟩
+                          · have := hun s (by simp only [subs, List.mem_cons, List.mem_append]; exact .inr (.inr hs)) hp hcs
+                            exact hh this
+                          · have e1 : K s'.key = s'.tree := hk s' (by
+                              simp only [subs, List.mem_cons, List.mem_append]; exact .inr (.inl hs'))
+                            have e2 : K s.key = s.tree := hk s (by
+                              simp only [subs, List.mem_cons, List.mem_append]; exact .inr (.inr hs))
+                            rw [he, e2] at e1
+                            have := subs_cnt m l s' hs'
+                            rw [← e1] at this
+                            omega
+                      obtain ⟨j2, g2, ge2, c2⟩ := s2.sentHit m hm hr1 hunr
+                      exact finish j2 g2 (by omega) c2
 
 end Clvm.TreeCacheProofs
